@@ -947,6 +947,10 @@ func (p c12) Exec(cl string) (string, []Fail) {
 		return p.execSheet(f[1:])
 	case "multi":
 		return p.execMulti(f[1:])
+	case "sheetb":
+		return p.execSheetB(f[1:])
+	case "wk":
+		return p.execWk(f[1:])
 	}
 	return "bad-op", nil
 }
@@ -1959,4 +1963,6 @@ func (c12) Gen(rng *rand.Rand, tier string, emit func(string)) {
 			emit(l)
 		}
 	}
+	// the sheets from their bytes, worker constructions on one library object (c12_bytes.go)
+	c12GenBytes(rng, tier, emit)
 }
